@@ -241,10 +241,17 @@ def rule_clean(ctx):
     # other attributes are deleted
     dels = [n for n in body_nodes(clean) if isinstance(n, ast.Call) and src_of(n.func) == "delattr"]
     lst = None
+    from ..forms import TupleV
     for n in body_nodes(clean):
-        if isinstance(n, ast.Compare) and len(n.ops) == 1 and isinstance(n.ops[0], ast.In) and isinstance(n.comparators[0], ast.List):
-            lst = {e.value for e in n.comparators[0].elts if isinstance(e, ast.Constant)}
-            lnode = n
+        if isinstance(n, ast.Compare) and len(n.ops) == 1 and isinstance(n.ops[0], (ast.In, ast.NotIn)):
+            # the kept-name collection may be a literal or a module-level constant: evaluate it
+            try:
+                cv = Interp(pkg, self_class=GV_CLASS).eval(n.comparators[0], State(), clean, 0)
+            except Exception:
+                cv = None
+            if isinstance(cv, TupleV) and cv.items and all(isinstance(e, Const) and isinstance(e.v, str) for e in cv.items):
+                lst = {e.v for e in cv.items}
+                lnode = n
     if not dels or lst is None:
         ctx.violation("C14.4", clean, clean.node, "clean(): custom attributes", "custom attributes are not deleted by clean()")
     else:
